@@ -596,6 +596,53 @@ func phiConstFrom(cond ssa.Value, b *ssa.BasicBlock, pred *ssa.BasicBlock) (val 
 	return false, false
 }
 
+// phiEdgeFrom: if cond (after normalisation) is a Phi of block b, the condition on entry from
+// pred is the phi's incoming value on that edge (a named boolean such as
+// `ok := a && b; if !ok`); returns that value and the branch polarity translated to it.
+func phiEdgeFrom(cond ssa.Value, b, pred *ssa.BasicBlock, branch bool) (ssa.Value, bool, bool) {
+	core, neg := normCond(cond)
+	phi, isPhi := core.(*ssa.Phi)
+	if !isPhi || phi.Block() != b || pred == nil {
+		return nil, false, false
+	}
+	for i, p := range b.Preds {
+		if p == pred {
+			return phi.Edges[i], branch != neg, true
+		}
+	}
+	return nil, false, false
+}
+
+// edgeOpen: the branch edge of ifi (taken when its condition == branch) is feasible on entry
+// from pred and does not establish g.
+func edgeOpen(ifi *ssa.If, b, pred *ssa.BasicBlock, branch bool, g Guard) bool {
+	cond := ifi.Cond
+	for depth := 0; depth < 4; depth++ {
+		if cb, ok := constBool(cond); ok {
+			return cb == branch
+		}
+		if cb, ok := evalCondFrom(cond, b, pred); ok {
+			return cb == branch // e.g. the first test of a range loop over a non-empty literal
+		}
+		if g != nil && (g(cond, branch) || predEstablishes(cond, branch, g, 0)) {
+			return false // edge establishes G (directly, or through a first-party predicate helper): cut
+		}
+		ev, eb, ok := phiEdgeFrom(cond, b, pred, branch)
+		if !ok {
+			return true
+		}
+		cond, branch = ev, eb
+		// a phi edge value that is itself a phi belongs to another block: stop threading there
+		if _, isPhi := strip(cond).(*ssa.Phi); isPhi {
+			if cb, ok := constBool(cond); ok {
+				return cb == branch
+			}
+			return !(g != nil && g(cond, branch))
+		}
+	}
+	return true
+}
+
 // reachAvoiding reports whether target is reachable from the entry of fn when
 // every branch edge that establishes G is deleted. It returns a witness path
 // (block indices) when reachable.
@@ -635,18 +682,12 @@ func reachFromAvoiding(fn *ssa.Function, start, target *ssa.BasicBlock, g Guard)
 		if blockNeverReturns(s.b) {
 			continue // log.Fatal*/os.Exit/panic: control does not leave this block
 		}
+		if s.b != target && blockEstablishes(s.b, g) {
+			continue // a validate-or-die helper called here returns only with G established
+		}
 		for i, succ := range s.b.Succs {
-			if ifi != nil {
-				branch := i == 0
-				if v, ok := phiConstFrom(ifi.Cond, s.b, s.pred); ok && v != branch {
-					continue // infeasible given where we came from
-				}
-				if cb, ok := constBool(ifi.Cond); ok && cb != branch {
-					continue
-				}
-				if g != nil && (g(ifi.Cond, branch) || predEstablishes(ifi.Cond, branch, g, 0)) {
-					continue // edge establishes G (directly, or through a first-party predicate helper): cut
-				}
+			if ifi != nil && !edgeOpen(ifi, s.b, s.pred, i == 0, g) {
+				continue
 			}
 			n := st{succ, s.b}
 			if !seen[n] {
@@ -1031,6 +1072,71 @@ func blockNeverReturns(b *ssa.BasicBlock) bool {
 	return false
 }
 
+// pushCallResolver maps the callee's parameters to the call's arguments (composed with the
+// resolver already in force) while the callee is examined on behalf of the caller; the returned
+// function restores the previous resolver.
+func pushCallResolver(call *ssa.Call, callee *ssa.Function) func() {
+	outer := curResolver
+	args := call.Call.Args
+	curResolver = func(v ssa.Value) ssa.Value {
+		if p, ok := v.(*ssa.Parameter); ok && p.Parent() == callee {
+			for i, q := range callee.Params {
+				if q == p && i < len(args) {
+					v = args[i]
+					if outer != nil {
+						return outer(v)
+					}
+					return v
+				}
+			}
+		}
+		if outer != nil {
+			return outer(v)
+		}
+		return v
+	}
+	return func() { curResolver = outer }
+}
+
+var callEstDepth int
+
+// callEstablishes: in is a static call of a first-party helper none of whose returns can be
+// reached without crossing an edge establishing g (validate-or-die helpers: the helper exits
+// or panics otherwise) — so g holds whenever control continues after the call.
+func callEstablishes(in ssa.Instruction, g Guard) bool {
+	call, ok := in.(*ssa.Call)
+	if !ok || g == nil || callEstDepth > 0 {
+		return false
+	}
+	callee := call.Call.StaticCallee()
+	if callee == nil || !IsFirstParty(callee) || callee.Blocks == nil || callee == in.Parent() {
+		return false
+	}
+	callEstDepth++
+	defer func() { callEstDepth-- }()
+	defer pushCallResolver(call, callee)()
+	for _, r := range returnsOf(callee) {
+		if reach, _ := reachAvoiding(callee, r.Block(), g); reach {
+			return false
+		}
+	}
+	return true
+}
+
+// blockEstablishes: some call in b establishes g (see callEstablishes).
+func blockEstablishes(b *ssa.BasicBlock, g Guard) bool {
+	if g == nil || callEstDepth > 0 {
+		return false
+	}
+	for _, in := range b.Instrs {
+		if callEstablishes(in, g) {
+			return true
+		}
+	}
+	return false
+}
+
+
 // predEstablishes: the branch condition is (the negation of) a call to a first-party
 // boolean helper, and inside that helper every return yielding the truth value taken on
 // this edge lies behind an edge establishing g (values of the helper are mapped to the
@@ -1053,26 +1159,7 @@ func predEstablishes(cond ssa.Value, branch bool, g Guard, depth int) bool {
 		return false
 	}
 	want := branch != neg
-	outer := curResolver
-	args := call.Call.Args
-	curResolver = func(v ssa.Value) ssa.Value {
-		if p, ok := v.(*ssa.Parameter); ok && p.Parent() == callee {
-			for i, q := range callee.Params {
-				if q == p && i < len(args) {
-					v = args[i]
-					if outer != nil {
-						return outer(v)
-					}
-					return v
-				}
-			}
-		}
-		if outer != nil {
-			return outer(v)
-		}
-		return v
-	}
-	defer func() { curResolver = outer }()
+	defer pushCallResolver(call, callee)()
 	edgeOK := func(p *ssa.BasicBlock, to *ssa.BasicBlock) bool {
 		// the path to p passes g, or the edge p->to itself establishes g
 		if n := len(p.Instrs); n > 0 {
